@@ -25,9 +25,11 @@ TRANSFORMS = [("shift", 3 * U, True), ("shift", -(2.5 * U + T0), True), ("shift"
 
 def plan(tier):
     if tier == "quick":
-        specs = [(2, [("dense", 1, 5)], CONF_Q), (3, [("dense", 1, 3)], CONF_Q[::2] + CONF_Q[8:9])]
+        specs = [(2, [("dense", 1, 5)], CONF_Q), (3, [("dense", 1, 3)], CONF_Q[::2] + CONF_Q[8:9]),
+                 (2, [("near", 2, 3)], CONF_Q[::2])]
     else:
-        specs = [(2, [("dense", 1, 7), ("bounded", 3, 8, 10)], CONF_T), (3, [("dense", 1, 4)], CONF_Q)]
+        specs = [(2, [("dense", 1, 7), ("bounded", 3, 8, 10)], CONF_T), (3, [("dense", 1, 4)], CONF_Q),
+                 (2, [("near", 2, 4)], CONF_Q)]
     tasks, descs = [], []
     for N, regimes, conf in specs:
         tasks += pairs.regime_tasks(N, regimes, ["py", "pyx"], extra={"conf": conf})
@@ -143,8 +145,7 @@ def evaluate(r, trains, edges, name, kw, transforms, be, rank=()):
 
 
 def check_state(r, k, masks, task):
-    trains = [lattice.times(m) for m in masks]
-    edges = lattice.edges(k)
+    trains, edges = pairs.trains_edges(k, masks)
     ns = pairs.nspikes(masks)
     for ci, (name, kw) in enumerate(task["conf"]):
         evaluate(r, trains, edges, name, kw, TRANSFORMS, task["backend"], (k, ns, ci))
